@@ -40,6 +40,11 @@ func (s *fieldSet) Add(name string) {
 	s.fields[name] = struct{}{}
 }
 
+// Remove removes name from this set (not from its parents).
+func (s *fieldSet) Remove(name string) {
+	delete(s.fields, name)
+}
+
 func (s *fieldSet) AddNew(name string) (ok bool) {
 	if ok = !s.Has(name); ok {
 		s.Add(name)
